@@ -29,9 +29,9 @@ Definition locked_frozen_full_statement : Prop := forall fuel s o s' out r,
 Definition d8_hist : list op := [ONewTd; OSet 0 "a" VLeaf; OLock 0].
 Definition d8_state : st := match run auto_fuel init d8_hist with Some (s, _) => s | None => init end.
 
-Lemma locked_frozen_refuted_D8 : ~ locked_frozen_full_statement.
+Lemma locked_frozen_refuted_D8 : fixed_D8 = false -> ~ locked_frozen_full_statement.
 Proof.
-  intros Hfull.
+  intros Hsw; first [discriminate Hsw|idtac]. intros Hfull.
   assert (R : run auto_fuel init d8_hist = Some (d8_state, [Done; Done; Done])) by (vm_compute; reflexivity).
   assert (HI : Inv d8_state).
   { eapply invariant_reachable; [|exact R]. repeat constructor. }
@@ -52,9 +52,9 @@ Definition member_cannot_unlock_full_statement : Prop := forall fuel s q n s' ou
 Definition d7_hist : list op := [ONewTd; OSet 0 "n" VNewTd; OMemmap 0].
 Definition d7_state : st := match run auto_fuel init d7_hist with Some (s, _) => s | None => init end.
 
-Lemma member_cannot_unlock_refuted_D7 : ~ member_cannot_unlock_full_statement.
+Lemma member_cannot_unlock_refuted_D7 : fixed_D7 = false -> ~ member_cannot_unlock_full_statement.
 Proof.
-  intros Hfull.
+  intros Hsw; first [discriminate Hsw|idtac]. intros Hfull.
   assert (R : run auto_fuel init d7_hist = Some (d7_state, [Done; Done; Done])) by (vm_compute; reflexivity).
   assert (HI : Inv d7_state) by (eapply invariant_reachable; [|exact R]; repeat constructor).
   assert (St : exists s', step 6 d7_state (OUnlock 1) = Some (s', Done)) by (vm_compute; eexists; reflexivity).
